@@ -95,6 +95,9 @@ var strArrReg = map[string][]interface{}{ // elements: string | int64 | bool | n
 	"mixed":     {"a", int64(1), true},
 	"utf8":      {"hé", "ö"},
 	"undefelem": {"a", nil},
+	"w1":        {"abcd"},        // one element (no separator is ever written)
+	"w2":        {"ab", "cd"},    // two elements
+	"w3":        {"x", "yz", ""}, // three elements
 }
 
 func mkStrArr(name string, immutable bool) func() tengo.Object {
